@@ -136,7 +136,12 @@ def run_one(q, prop):
     return r
 
 
-def run_all(qs, prop):
+def run_all(qs, prop, tier="quick"):
+    if tier == "thorough":
+        # every script is additionally decided by z3 5.1.0; a disagreement with the other solvers is inconclusive
+        for q in qs:
+            if "z3-new" not in q.solvers:
+                q.solvers = tuple(q.solvers) + ("z3-new",)
     return [run_one(q, prop) for q in qs]
 
 
